@@ -220,3 +220,67 @@ def reaching_at_end(stmts, name, cur=None):
             cur = set().union(*outs)
             cur = reaching_at_end(st.finalbody, name, cur)
     return cur
+
+
+# --------------------------------------------------------------------------
+class LoopSnap:
+    """State at the head of a loop, recorded by `snapshot_loops`."""
+
+    def __init__(self, node, env, conds):
+        self.node, self.env, self.conds = node, env, conds
+
+
+def snapshot_loops(it, dom, pick=None, prefix='post_'):
+    """Install a loop hook: at every For/While (selected by pick(node)) record the environment and path conditions, then
+    replace every name the loop assigns by a fresh symbol `post_<name>` and skip the loop.  Returns the list that fills up
+    with LoopSnap objects during the next runs (cleared by the caller between runs)."""
+    snaps = []
+
+    def loop(node, frame):
+        if pick is not None and not pick(node):
+            return False
+        snaps.append(LoopSnap(node, dict(frame.env), list(it.conds)))
+        for st in node.body:
+            for n in ast.walk(st):
+                if isinstance(n, ast.Name) and isinstance(n.ctx, ast.Store):
+                    frame.env[n.id] = dom.sym(prefix + n.id)
+        if isinstance(node, ast.For):
+            for n in ast.walk(node.target):
+                if isinstance(n, ast.Name):
+                    frame.env[n.id] = dom.sym(prefix + n.id)
+        return True
+    dom.loop = loop
+    return snaps
+
+
+def loop_as_function(fi, loop, results, name=None):
+    """A FuncInfo whose body is one iteration of `loop`: parameters are the names the body reads before assigning them
+    (plus the loop target), `continue` returns, and the function returns the tuple of `results` (names; a name that is
+    unbound on a path is returned as None via a preset)."""
+    import copy
+    from ..core.db import FuncInfo
+    body = copy.deepcopy(loop.body)
+    exposed, _ = upward_exposed(loop.body, frozenset())
+    tgt = sorted(_store_names(loop.target)) if isinstance(loop, ast.For) else []
+    mod = fi.module
+    global_names = set(getattr(mod, 'functions', {})) | set(getattr(mod, 'imports', {})) | set(getattr(mod, 'classes', {})) | set(getattr(mod, 'assigns', {}))
+    local_assigned = {n.id for n in ast.walk(fi.node) if isinstance(n, ast.Name) and isinstance(n.ctx, ast.Store)} | set(fi.params)
+    params = sorted(((exposed & local_assigned) | set(tgt) | set(results)) - set(dir(__import__('builtins'))) - (global_names - local_assigned))
+    ret = lambda: ast.Return(value=ast.Tuple(elts=[ast.Name(id=r, ctx=ast.Load()) for r in results], ctx=ast.Load()))
+
+    class T(ast.NodeTransformer):
+        def visit_For(self, node):
+            return node                      # a continue inside a nested loop belongs to that loop
+
+        visit_While = visit_For
+
+        def visit_Continue(self, node):
+            return ast.copy_location(ret(), node)
+    body = [T().visit(st) for st in body]
+    body.append(ast.copy_location(ret(), loop))
+    fn = ast.FunctionDef(name=name or (fi.name + '__loop%d' % loop.lineno), args=ast.arguments(posonlyargs=[], args=[ast.arg(arg=p) for p in params], vararg=None, kwonlyargs=[], kw_defaults=[], kwarg=None, defaults=[]),
+                         body=body, decorator_list=[], returns=None, type_comment=None)
+    ast.copy_location(fn, loop)
+    ast.fix_missing_locations(fn)
+    out = FuncInfo(fi.module, fi.qual + '#loop%d' % loop.lineno, fn, cls=fi.cls)
+    return out, params
